@@ -31,12 +31,13 @@ LEVEL_NOTE = ("Theorems relate the Gallina model coq/Valid/*.v of the rule visit
               "otherwise tied to the repository by the per-rule correspondence. The set of rule "
               "labels is obtained by running each rule class alone through the public validators= parameter.")
 RULE = ("base documents = valid-by-construction documents and single labelled violators (26 labels) over generated schemas; "
-        "for each base: a permutation of the definitions, of all selection lists, of all argument lists, of the fields of all input object literals, a consistent renaming "
+        "for each base: a permutation of the definitions, of all selection lists, of all argument lists, of the fields of all input object literals, a re-spelling of every line terminator (LF, CRLF, CR) with comments added and stripped, a consistent renaming "
         "of aliases/fragments/variables to fresh names, and re-spellings of insignificant trivia (commas, line breaks, "
         "comments, tight); the label set of every variant must equal the base's and the model's. "
         "non-trivial = variant text differs from the base text; distinct = distinct (schema, text)")
 
-VARIANTS = ["base", "perm_defs", "perm_sels", "perm_args", "perm_fields", "rename", "trivia"]
+RESPELL_PER_BASE = 1   # thorough tier: 2
+VARIANTS = ["base", "perm_defs", "perm_sels", "perm_args", "perm_fields", "rename", "trivia", "respell_lines"]
 
 
 def _mk(sdl, tree, base_text, variant, label, origin, style="plain"):
@@ -49,7 +50,7 @@ def _mk(sdl, tree, base_text, variant, label, origin, style="plain"):
     return c
 
 
-def variants_of(rng, sdl, tree, label, origin, styles):
+def variants_of(rng, sdl, tree, label, origin, styles, respell=None):
     base_text = gen_valid.render(tree, "plain")
     out = [_mk(sdl, tree, base_text, "base", label, origin)]
     out.append(_mk(sdl, gen_valid.permute_defs(rng, tree), base_text, "perm_defs", label, origin))
@@ -65,7 +66,30 @@ def variants_of(rng, sdl, tree, label, origin, styles):
         out.append(_mk(sdl, gen_valid.rename(rng, tree), base_text, "rename", label, origin))
     for st in styles:
         out.append(_mk(sdl, tree, base_text, "trivia", label, origin, st))
+    if not any(d["kind"] == "raw" for d in tree["defs"]):
+        # presentation only: the multi-line spelling (with comments at line ends in one of the two styles), every line
+        # terminator re-spelled \n / \r\n / \r, comments added and stripped
+        for _ in range(RESPELL_PER_BASE if respell is None else respell):
+            c = _mk(sdl, tree, base_text, "respell_lines", label, origin)
+            c["text"] = gen_valid.respell_lines(rng, gen_valid.render(tree, rng.choice(["comments", "lines"])))
+            out.append(c)
     return out
+
+
+def _respell_guard(c):
+    """a re-spelling that no longer parses while its base does is a violation of its own: the case is
+    kept, on the base text, with the failing text recorded"""
+    if c["variant"] != "respell_lines":
+        return c
+    try:
+        parse(c["base_text"], allow_type_system=bool(c.get("ats")))
+    except GraphQLError:
+        return c
+    try:
+        parse(c["text"], allow_type_system=bool(c.get("ats")))
+        return c
+    except GraphQLError as e:
+        return dict(c, text=c["base_text"], respell_failed=[c["text"], str(e)[:120]])
 
 
 def corpus():
@@ -139,6 +163,23 @@ def corpus():
         name, order, place = n.rsplit("-", 2)
         out.append({"sdl": c05.WITNESS_SDL, "text": text, "base_text": oa["%s-%d-%s" % (name, 1 - int(order), place)],
                     "variant": "perm_sels", "origin": "witness"})
+    # seeded C06-i: line terminators and comments re-spelled (a comment ends at \r as well as at \n)
+    anc = "anchor(req: 1, inn: {v: 1}, lnn: [1])"
+    for base, texts in (
+            ("{ %s { name meowVolume } }" % anc,
+             ["{ %s {\r    name # its name\r    meowVolume\n  }\r}" % anc,
+              "{ %s {\r\n    name # its name\r\n    meowVolume\r\n  }\r\n}" % anc,
+              "{ %s { # open\r name\r # alone\r meowVolume # last\r } }\n" % anc]),
+            ("{ %s { id name } }" % anc,
+             ["{ %s { # c\r id # d\r name }\r}" % anc,
+              "{ %s {\r id #\r name\r}\r}\r" % anc,
+              "# head\r{ %s { id, name } } # tail" % anc,
+              "{ %s { id # one\r\n name # two\n } } # three\r" % anc]),
+            ("query Q($v: Int = 1) { %s { id @skip(if: false) } }" % anc,
+             ["query Q( # vars\r $v: Int = 1 # default\r) # dirs\r{ %s { id @skip( # arg\r if: false) } }" % anc])):
+        for text in texts:
+            out.append(_respell_guard({"sdl": c05.WITNESS_SDL, "text": text, "base_text": base, "variant": "respell_lines",
+                                       "origin": "witness"}))
     chain = c05._CHAIN
     head = "query Q($v: Int) { anchor(req: 1, inn: {v: 1}, lnn: [1]) { ...Ta } }"
     base = head + " " + " ".join(chain)
@@ -150,9 +191,11 @@ def corpus():
 
 def generate(rng, tier):
     quick = tier == "quick"
+    global RESPELL_PER_BASE
+    RESPELL_PER_BASE = 1 if quick else 2
     vc.ALT_RULES_ALL = not quick
     n_schemas = 3 if quick else 10
-    n_valid = 7 if quick else 20
+    n_valid = 6 if quick else 20
     cases = []
     for _ in range(n_schemas):
         sdl = gen_valid.gen_schema(rng)
@@ -164,13 +207,15 @@ def generate(rng, tier):
             for _try in range(6):
                 t = gen_valid.violate(rng, schema, rng.choice(valid), label)
                 if t is not None:
-                    cases.extend(variants_of(rng, sdl, t, label, "violator", [rng.choice(gen_valid.STYLES[1:])]))
+                    cases.extend(variants_of(rng, sdl, t, label, "violator", [rng.choice(gen_valid.STYLES[1:])],
+                                             respell=(1 if label % 3 == 0 else 0) if quick else None))
                     break
         if not quick:
             for t in gen_valid.special_mutants(rng)[:: 3]:
                 cases.extend(variants_of(rng, sdl, t, None, "special", []))
     ok = []
     for c in cases:
+        c = _respell_guard(c)
         try:
             parse(c["text"], allow_type_system=bool(c.get("ats")))
             parse(c["base_text"], allow_type_system=bool(c.get("ats")))
@@ -216,6 +261,8 @@ def classify(case, obs):
 
 def direct_checks(case, obs):
     out = vc.rules_direct_checks(case, obs)
+    if case.get("respell_failed"):
+        out.append(("parse-unchanged-by-respell_lines", None))
     if not obs["raised"] and not obs["base_raised"] and obs["reported"] != obs["base_reported"]:
         out.append(("verdict-unchanged-by-%s" % case["variant"], None))
     elif "full" in obs and obs.get("base_full") is not None and bool(obs["full"]) != bool(obs["base_full"]):
